@@ -120,3 +120,50 @@ def run(src, modules=None, timeout=10.0, cap=1 << 20):
     if lines and lines[-1] == '':
         lines.pop()
     return dict(lines=lines, exc=exc, chain=chain, detail=detail, status=status)
+
+
+INTROSPECT = r'''
+import inspect, json
+def _sig(f):
+    out = []
+    try:
+        s = inspect.signature(f)
+    except (TypeError, ValueError):
+        return None
+    for p in s.parameters.values():
+        out.append([p.name, p.default is not inspect.Parameter.empty, {p.VAR_POSITIONAL: '*', p.VAR_KEYWORD: '**', p.KEYWORD_ONLY: 'kw'}.get(p.kind, ''),
+                    repr(p.default) if p.default is not inspect.Parameter.empty else None])
+    return out
+_rep = {'functions': {}, 'classes': {}}
+for _n, _v in list(_g.items()):
+    if _n.startswith('__') or getattr(_v, '__module__', None) not in ('__main__', None):
+        continue
+    if inspect.isfunction(_v):
+        _rep['functions'][_n] = _sig(_v)
+    elif inspect.isclass(_v):
+        _ms = {}
+        for _mn, _mv in _v.__dict__.items():
+            if inspect.isfunction(_mv):
+                _ms[_mn] = _sig(_mv)
+        _rep['classes'][_n] = {'bases': [b.__name__ for b in _v.__bases__], 'ctor': _sig(_v), 'methods': _ms, 'abstract': bool(getattr(_v, '__abstractmethods__', None)),
+                               'attrs': sorted(k for k in _v.__dict__ if not k.startswith('__') and not inspect.isfunction(_v.__dict__[k]))}
+'''
+
+
+def introspect(src, calls=(), timeout=10.0):
+    """Execute the module (output discarded), then report the signatures Python sees and the outcome of the
+    requested calls. calls: list of python expression strings evaluated in the module's globals.
+    Returns dict(report=..., calls=[(expr, 'ok'|ExcClass: msg)], exc=import-time exception or None)."""
+    import json
+    prog = (
+        "import io, sys, json\n_g = {'__name__': '__main__'}\n_real = sys.stdout\nsys.stdout = io.StringIO()\n_exc = None\n"
+        "try:\n    exec(compile(_SRC, 'out.py', 'exec'), _g)\nexcept BaseException as e:\n    _exc = type(e).__name__ + ': ' + str(e)[:200]\n"
+        + INTROSPECT +
+        "_calls = []\nfor _c in _CALLS:\n    try:\n        eval(_c, _g)\n        _calls.append([_c, 'ok'])\n    except BaseException as e:\n        _calls.append([_c, type(e).__name__ + ': ' + str(e)[:160]])\n"
+        "sys.stdout = _real\nprint('\\x00REPORT:' + json.dumps({'report': _rep, 'calls': _calls, 'exc': _exc}))\n")
+    full = f'_SRC = {src!r}\n_CALLS = {list(calls)!r}\n' + prog
+    o = run(full, timeout=timeout)
+    for l in o['lines']:
+        if l.startswith('\x00REPORT:'):
+            return json.loads(l[len('\x00REPORT:'):])
+    return {'report': None, 'calls': [], 'exc': o['exc'] or o['status'], 'detail': o.get('detail')}
